@@ -6,5 +6,5 @@ cd "$(dirname "$0")"
 declare -A dirs=( [adaptation]=pkg/adaptation [api]=pkg/api [stub]=pkg/stub [net]=pkg/net [multiplex]=pkg/net/multiplex [generate]=pkg/runtime-tools/generate [deviceinjector]=plugins/device-injector [ulimitadjuster]=plugins/ulimit-adjuster )
 for pkg in "${!dirs[@]}"; do
   ls ${pkg}_*.txt >/dev/null 2>&1 || continue
-  cat ${pkg}_*.txt > /repo/${dirs[$pkg]}/contracts_verif.go
+  cat ${pkg}_*.txt > ${REPO:-/repo}/${dirs[$pkg]}/contracts_verif.go
 done
